@@ -70,6 +70,20 @@ CHECKS = {
         'Trusts: the docstring model in mc/props/C15.py. Items lacking the key attribute or already holding it in the '
         'map->seq direction are outside the documented domain (only the exception type is checked there).',
         'DESIGN.md 3 C15'),
+    'C14': (
+        'explicit-state breadth-first search over all accessor call sequences up to depth 4/5 (histories replayed on the '
+        'real Node, compared step by step with an OrderedDict model) + exhaustive enumeration of scalar spellings, '
+        '(value, node) and (default, value) pairs',
+        'Every sequence of has/get/set/remove/rename/has_attribute_type calls with arguments from small alphabets up to '
+        'depth 4 (quick) / 5 (thorough) from 9 initial mappings is explored breadth-first with canonical-state '
+        'de-duplication; every transition replays its whole history on a fresh real yatiml.Node and must agree with '
+        'the ordered-dictionary model in result and state. get_value() is compared with what the load function '
+        'constructs for every scalar spelling up to length 3/4 over the number and word alphabets plus PyYAML\'s '
+        'integer/float forms; set_value/get_value/is_scalar for 20 values x 10 node kinds; '
+        'remove_attributes_with_default_values for 15 defaults x 22 value nodes x {signature, _yatiml_defaults}.',
+        'Trusts: canonicalisation to (key, tag, value) lists (no accessor reads anything else); the OrderedDict model. '
+        'Cross-kind numeric equalities and nan defaults are accepted either way.',
+        'DESIGN.md 3 C14'),
 }
 
 NOT_BUILT = {}
